@@ -2,6 +2,13 @@
 
 package sarama
 
+import (
+	"fmt"
+	"time"
+
+	"github.com/eapache/go-resiliency/breaker"
+)
+
 // In-package access for go/harness/cmd/decgencorr: runs the small decision functions that go/decgen
 // translates, on explicit inputs, so that the generated Gallina definitions can be compared with them.
 // Added by -overlay at build time; nothing is written to the repository.
@@ -115,3 +122,80 @@ func VerifDecgenDependsOnSpecificNode(t ConfigResourceType, name string) bool {
 }
 
 func VerifDecgenVersion(a, b, c, d uint) KafkaVersion { return newKafkaVersion(a, b, c, d) }
+
+// ---------------------------------------------------------------- second wave
+
+// VerifDecgenPartitionMessage runs topicProducer.partitionMessage of a fresh topic producer (closed breaker).
+func VerifDecgenPartitionMessage(p Partitioner, c Client, msg *ProducerMessage) error {
+	tp := &topicProducer{parent: &asyncProducer{client: c}, partitioner: p, breaker: breaker.New(3, 1, 10*time.Second)}
+	return tp.partitionMessage(msg)
+}
+
+// VerifDecgenNeedsRetry runs brokerProducer.needsRetry; hasEntry: currentRetries has an entry (cur) for the message.
+func VerifDecgenNeedsRetry(closing error, hasTopic, hasEntry bool, cur error) error {
+	bp := &brokerProducer{closing: closing, currentRetries: map[string]map[int32]error{}}
+	if hasTopic {
+		bp.currentRetries["t"] = map[int32]error{}
+		if hasEntry {
+			bp.currentRetries["t"][1] = cur
+		}
+	}
+	return bp.needsRetry(&ProducerMessage{Topic: "t", Partition: 1})
+}
+
+// VerifDecgenSeqEntry is one sequence-number map entry, keyed the way the harness expects the producer to key it.
+type VerifDecgenSeqEntry struct {
+	Topic     string
+	Partition int32
+	Value     int32
+}
+
+func verifDecgenTxn(epoch int16, entries []VerifDecgenSeqEntry) *transactionManager {
+	t := &transactionManager{producerID: 7, producerEpoch: epoch, sequenceNumbers: map[string]int32{}}
+	for _, e := range entries {
+		t.sequenceNumbers[fmt.Sprintf("%s-%d", e.Topic, e.Partition)] = e.Value
+	}
+	return t
+}
+
+// VerifDecgenGetSeq runs getAndIncrementSequenceNumber; returns its results and the map afterwards (by key string).
+func VerifDecgenGetSeq(epoch int16, entries []VerifDecgenSeqEntry, topic string, partition int32) (int32, int16, map[string]int32) {
+	t := verifDecgenTxn(epoch, entries)
+	s, e := t.getAndIncrementSequenceNumber(topic, partition)
+	return s, e, t.sequenceNumbers
+}
+
+// VerifDecgenBumpEpoch runs bumpEpoch; returns the epoch and the map afterwards.
+func VerifDecgenBumpEpoch(epoch int16, entries []VerifDecgenSeqEntry) (int16, map[string]int32) {
+	t := verifDecgenTxn(epoch, entries)
+	t.bumpEpoch()
+	return t.producerEpoch, t.sequenceNumbers
+}
+
+// VerifDecgenRollOver runs brokerProducer.rollOver on a broker producer with a pending, fired timer.
+func VerifDecgenRollOver() (timerNil, timerFired, newBuffer bool) {
+	conf := NewConfig()
+	parent := &asyncProducer{conf: conf, txnmgr: &transactionManager{producerID: noProducerID}}
+	old := newProduceSet(parent)
+	bp := &brokerProducer{parent: parent, buffer: old, timer: time.After(time.Hour), timerFired: true}
+	bp.rollOver()
+	return bp.timer == nil, bp.timerFired, bp.buffer != old && bp.buffer != nil && bp.buffer.empty()
+}
+
+// VerifDecgenAddBlock runs OffsetCommitRequest.AddBlock on a request whose block maps are nil / present as told.
+func VerifDecgenAddBlock(blocksNil, topicNil bool, topic string, partition int32, offset, timestamp int64, metadata string) (outerMade, innerMade bool, o, ts int64, m string) {
+	r := &OffsetCommitRequest{}
+	if !blocksNil {
+		r.blocks = map[string]map[int32]*offsetCommitRequestBlock{}
+		if !topicNil {
+			r.blocks[topic] = map[int32]*offsetCommitRequestBlock{}
+		}
+	}
+	var inner map[int32]*offsetCommitRequestBlock
+	if r.blocks != nil {
+		inner = r.blocks[topic]
+	}
+	r.AddBlock(topic, partition, offset, timestamp, metadata)
+	b := r.blocks[topic][partition]
+	return blocksNil && r.blocks != nil, inner == nil && r.blocks[topic] != nil, b.offset, b.timestamp, b.metadata
+}
